@@ -596,7 +596,7 @@ def check(run, props):
                 t = json.loads(line)
                 traces[t['tid']] = t
     # writer failures on random valid input are violations by themselves
-    verdicts = validate_batches('Trace_GroFile', TRACE_CFG, parts, scratch, timeout=3000)
+    verdicts = validate_batches('Trace_GroFile', TRACE_CFG, parts, scratch, timeout=3000, run=run)
     c14_clauses = {'crash_point_rejected', 'accepted_after_box_line', 'failed_close_rejected',
                    'truncation_before_box_rejected', 'accepted_truncation_exact'}
     for tid, tr in traces.items():
